@@ -273,8 +273,19 @@ func Execute(t *testing.T, sc *Scenario, dec *Decider, obs ...Observer) (*RunRes
 	}
 	res.LogHash = hex.EncodeToString(h.Sum(nil)[:12])
 	res.TraceHash = hex.EncodeToString(th.Sum(nil)[:12])
+	if KeepLogs {
+		LastLogs = append(LastLogs, append([]string{}, res.Log...))
+	}
+	if d := os.Getenv("VERIF_DUMP_LOGS"); d != "" {
+		_ = os.WriteFile(filepath.Join(d, fmt.Sprintf("run-%06d.log", runCounter)), []byte(strings.Join(res.Log, "\n")+"\n"), 0644)
+	}
 	return res, k
 }
+
+// KeepLogs makes Execute keep the event log of every run in LastLogs (used by
+// the determinism re-check to show where two executions part).
+var KeepLogs bool
+var LastLogs [][]string
 
 // AbandonedRuns counts simulated runs given up by the real-time watchdog.
 var AbandonedRuns int
